@@ -198,7 +198,7 @@ def opVecF (op : String) (x y : List Float32) (s : Float32) (m : Nat) : String :
   | "ArgMin" => s!"ok {argmin x}"
   | "SortIncreasing" => vc (some (sortIncreasing x))
   | "SortDecreasing" => vc (some (sortDecreasing x))
-  | "Reverse" => vc (some (reverse x))
+  | "Reverse" | "ReverseInPlace" => vc (some (reverse x))
   | "Scale" => vc (some (scale x s))
   | "Increment" => vc (some (increment x s))
   | "Add" => vc (some (add x y))
@@ -214,7 +214,7 @@ def opVecF (op : String) (x y : List Float32) (s : Float32) (m : Nat) : String :
   | "Log2Sum" => sc (log2Sum x)
   | "Entropy" => sc (some (entropy x))
   | "RelEntropy" => sc (some ((relEntropyGo x y (VNum.ofNat 0)).getD VInf.inf))
-  | "CDF" => vc (cdf x)
+  | "CDF" | "CDFInPlace" => vc (cdf x)
   | "Validate" => stat (validate x s)
   | "LogValidate" => stat (logValidate x s)
   | "Log2Validate" => stat (log2Validate x s)
@@ -232,7 +232,7 @@ def opVecI (k : Nat) (op : String) (x y : List Int) (m : Nat) (c : Int) : String
   | "ArgMin" => s!"ok {argmin x}"
   | "SortIncreasing" => "ok " ++ hexOrDash (ibytes k (sortIncreasing x))
   | "SortDecreasing" => "ok " ++ hexOrDash (ibytes k (sortDecreasing x))
-  | "Reverse" => "ok " ++ hexOrDash (ibytes k (reverse x))
+  | "Reverse" | "ReverseInPlace" => "ok " ++ hexOrDash (ibytes k (reverse x))
   | "Scale" => "ok " ++ hexOrDash (ibytes k (x.map (· * c)))
   | "MatScale" => if m = 0 then "bad-op" else "ok " ++ hexOrDash (ibytes k (x.map (· * c)))
   | "Increment" => "ok " ++ hexOrDash (ibytes k (x.map (· + c)))
